@@ -163,13 +163,15 @@ def c12(case):
                 kw["default_ns"] = a["dns"]
             if a.get("dew"):
                 kw["default_ew"] = a["dew"]
+            if a.get("ocr") and ch != "Tract.from_twprgesec":
+                kw["ocr_scrub"] = True
             if ch == "TRS.from_twprgesec":
                 o = pytrs.TRS.from_twprgesec(a["twp"], a["rge"], a["sec"], **kw)
             elif ch == "TRS.set_twprgesec":
                 o = pytrs.TRS()
                 o.set_twprgesec(a["twp"], a["rge"], a["sec"], **kw)
             elif ch == "Tract.from_twprgesec":
-                cfg = ",".join(x for x in (a.get("dns"), a.get("dew")) if x) or None
+                cfg = ",".join(x for x in (a.get("dns"), a.get("dew"), "ocr_scrub" if a.get("ocr") else None) if x) or None
                 o = pytrs.Tract.from_twprgesec("NE/4", a["twp"], a["rge"], a["sec"], config=cfg)
             else:  # Tract.set_twprgesec
                 o = pytrs.Tract("NE/4")
@@ -668,6 +670,8 @@ def _c13_run(scn, table):
                 if val("assign_config") is not None:
                     d.config = cfgtext(val("assign_config"))
                 d.parse(**parse_kw)
+                if scn.get("again"):
+                    d.parse()
             proj = (d.current_layout, d.pp_desc,
                     tuple((t.trs, t.desc, tuple(t.lots), tuple(t.qqs), t.parse_complete) for t in d.tracts),
                     tuple(sorted(map(repr, d.w_flags))), tuple(sorted(map(repr, d.e_flags))))
@@ -678,6 +682,8 @@ def _c13_run(scn, table):
                 t.config = cfgtext(val("assign_config"))
             if s != "parse_qq":
                 t.parse(**parse_kw)
+                if scn.get("again"):
+                    t.parse()
             proj = (t.trs, t.pp_desc, tuple(t.lots), tuple(t.qqs), t.parse_complete, tuple(sorted(map(repr, t.w_flags))))
         return table.setdefault(proj, len(table) + 1), "none", repr(proj)[:300]
     except Exception as e:  # noqa
@@ -703,7 +709,8 @@ def c13_scenario(case):
 # C14: object life-cycles
 
 C14_PLSS_TEXT = "T154-R97W Sec 15 NE, Lots 1, 1, N/2, Sec 14 Lots 5 - 3, NE"
-C14_TRACT_TEXT = "Lots 1, 1, 5 - 3, NE, N/2SW/4, N/2SW/4"
+# (which duplicate flags there are depends on clean_qq and on the depth, so stale flags are visible)
+C14_TRACT_TEXT = "Lots 1, 1, 5 - 3, NE, NE/4, N/2NE/4, SW"
 _SETTING_ATTRS = ["default_ns", "default_ew", "layout", "wait_to_parse", "parse_qq", "clean_qq", "sec_colon_required",
                   "sec_colon_cautious", "suppress_lot_divs", "ocr_scrub", "segment", "qq_depth", "qq_depth_min",
                   "qq_depth_max", "break_halves", "sec_within"]
@@ -787,6 +794,8 @@ def c14(case):
                         k["clean_qq"] = _b(kw["clean"])
                     if kw["ns"] != "-":
                         k["default_ns"] = kw["ns"]
+                    if kw.get("lay", "-") != "-":
+                        k["layout"] = kw["lay"]
                     r = obj.parse(commit=op["commit"], **k)
                     ret = (tuple(snap_tract(t)[:16] for t in r),)
                 elif name == "parse_tracts":
@@ -971,7 +980,8 @@ def c15(case):
 
 C18_TRS = {1: "154n97w14", 2: "154n97w15", 3: "155n97w14", 4: "XXXz97w14", 5: "154n97wXX", 6: "154n97w__",
            7: "___z97wXX", 8: "XXXzXXXzXX"}
-C18_DESC = {(1, 1): "NE/4", (2, 1): "E/2NE/4, W/2NE/4", (1, 0): "NE/4", (3, 2): "SW/4", (1, 2): "SW/4 "}
+C18_DESC = {(1, 1): "NE/4", (2, 1): "E/2NE/4, W/2NE/4", (1, 0): "NE/4", (3, 2): "SW/4", (1, 2): "SW/4 ",
+            (4, 3): "That part lying north of the river", (5, 3): "A strip of land along the county road"}
 
 
 def _c18_build(lst, container):
@@ -1345,9 +1355,16 @@ def c19_records(case):
 _LOTNUM = re.compile(r"L(\d+)$")
 
 
-def _c06_obs(text, suppress, table):
+def _c06_obs(text, suppress, table, seq=False):
     import pytrs
-    t = pytrs.Tract(text, parse_qq=True, config="suppress_lot_divs" if suppress else None)
+    if seq:
+        # the same final settings reached through a history: committed parse under the opposite setting, an
+        # uncommitted parse under other settings, then the committed parse that is observed
+        t = pytrs.Tract(text, parse_qq=True, config="suppress_lot_divs.%s" % (not suppress))
+        t.parse(commit=False, suppress_lot_divs=suppress, clean_qq=True, qq_depth=1)
+        t.parse(suppress_lot_divs=suppress)
+    else:
+        t = pytrs.Tract(text, parse_qq=True, config="suppress_lot_divs" if suppress else None)
     lots = list(t.lots)
     return {"lots": [_intern(table, "lot:" + x) for x in lots], "qqs": [_intern(table, "qq:" + x) for x in t.qqs],
             "lots_qqs": [_intern(table, ("lot:" if x in lots else "qq:") + x) for x in t.lots_qqs],
@@ -1362,7 +1379,7 @@ def c06(case):
     a = case["args"]
     table = {}
     try:
-        whole = _c06_obs(a["text"], a["suppress"], table)
+        whole = _c06_obs(a["text"], a["suppress"], table, seq=bool(a.get("seq")))
         parts = []
         for el in a["elements"]:
             p = _c06_obs(el["text"], a["suppress"], table)
@@ -1417,6 +1434,15 @@ def c07(case):
                 fixed = False
             if t.preprocess() != t.pp_desc:
                 fixed = False
+        # the explicit keyword of Tract.preprocess() decides, whatever the tract's own setting is
+        import pytrs
+        for own in (None, "clean_qq"):
+            for kw in (True, False):
+                want = pytrs.Tract(text, config="clean_qq" if kw else None).pp_desc
+                tk = pytrs.Tract(text, config=own)
+                if tk.preprocess(clean_qq=kw) != want or tk.preprocess(clean_qq=kw, commit=True) != want or tk.pp_desc != want:
+                    same = False if a["all_recognised"] else same
+                    fixed = False
         toks, pos = [], 0
         for m in _PP_TOK.finditer(pp):
             if pp[pos:m.start()].strip():
